@@ -3,7 +3,7 @@
 import json, os
 V = os.path.dirname(os.path.abspath(__file__))
 TRUST = ("Trusted base: the system-call contracts of /verif/prelude (external_body stand-ins for std/rustix/libc/xattr, listed mechanically in "
-         "evidence.coverage.trusted_base), the prelude type mirrors, the extractor/generator, Verus and Z3. Assumptions A-kernel, A-stable, A-pool, A-main, "
+         "evidence.coverage.trusted_base), the prelude type mirrors, the extractor/generator, Verus and Z3. Assumptions A-kernel, A-stable, A-pool, "
          "A-walk, A-drop, A-eintr, A-off_t, A-panic (DESIGN.md §6). unsafe fiemap and the FICLONE ioctl are trusted.")
 CHECKS = {
  'C01': ('proof', "Verus discharges, for all file contents, sizes, block sizes, short-count patterns and errnos allowed by the assumed kernel contracts, that each data-path function under contract (libfs copy loops and wrappers, CopyHandle copy paths, parblock partitioning and block job) returns Ok only after exactly the source bytes are at exactly the right offsets of the destination, with everything else of the destination untouched. Conditional on the kernel contracts and on the thread pool running every job (assumed).", '§5 C01'),
